@@ -59,6 +59,13 @@ func (c *c02Oracle) Check(w *World, o *Obs) []Violation {
 			// cookie-authenticated session may do is C07's business
 			return nil
 		}
+		if !w.rowHasFactor(row) {
+			// the account's factor was removed (from another session) after
+			// the password step parked this login: no second factor is
+			// enabled any more, so none is owed
+			w.Stats.Reach["c02_factor_removed_while_pending"]++
+			return nil
+		}
 		rc := o.presented("recovery")
 		code := o.presented("code")
 		if rc != nil && rc.Value != "" {
